@@ -30,6 +30,10 @@ except ImportError:  # pragma: no cover
         pass
 
 
+def c_qual(ex):
+    return ex.c.qual
+
+
 class Exec(MonitorMixin, DictMixin, StmtMixin, CallMixin, BuiltinMixin, ExprMixin, Core):
     def __init__(self, registry: Registry, contract: Contract):
         Core.__init__(self, registry, contract)
@@ -108,6 +112,9 @@ class Exec(MonitorMixin, DictMixin, StmtMixin, CallMixin, BuiltinMixin, ExprMixi
         for st in self.entry_states(fn):
             for r in c.requires:
                 st.assume(self.spec_bool(r, {}, st))
+            for r in c.scope:
+                st.assume(self.spec_bool(r, {}, st))
+                self.trusted_used.add(f"{c.qual}: scope restriction `{r}` (paths outside it are not verified)")
             st.old = st.snapshot()
             if c.cover:
                 self.obligs.append(Oblig(f"{c.qual}::cover.requires", "cover", c.qual, fn.lineno, list(self.global_facts) + list(st.pc), z3.BoolVal(True), "precondition is satisfiable", 0, list(c.serves), True))
@@ -165,6 +172,7 @@ class Exec(MonitorMixin, DictMixin, StmtMixin, CallMixin, BuiltinMixin, ExprMixi
             for p_ in c.params:
                 if p_ in st.old.env:
                     env[p_] = st.old.env[p_]
+        self.check_frame(st, "normal return")
         for k, h in enumerate(c.hints):
             g = self.spec_bool(h, env, st)
             self.oblige(st, g, "hint", f"hint {h}", name=f"{c.qual}::hint[{k}]")
@@ -173,6 +181,63 @@ class Exec(MonitorMixin, DictMixin, StmtMixin, CallMixin, BuiltinMixin, ExprMixi
             self.oblige(st, g, "ensures", e, name=f"{c.qual}::ensures[{k}]")
         if c.cover:
             self.obligs.append(Oblig(f"{c.qual}::cover.return", "cover", c.qual, self.cur_line, list(self.global_facts) + list(st.pc), z3.BoolVal(True), "some normal return is reachable", self.path_counter, list(c.serves), True))
+
+    # ------------------------------------------------------------------ frame conditions
+    def check_frame(self, st: State, where: str):
+        """Every field of every mutable parameter that the contract's `modifies` does not list is unchanged (callers
+        havoc exactly the `modifies` list at a call, so an undeclared effect would make them unsound)."""
+        c = self.c
+        if st.old is None:
+            return
+        mods = set(c.modifies or [])
+        if c.monitor:
+            # monitor-protected fields are shared with other threads: what they hold at return is governed by the monitor
+            # invariant, not by this function's frame
+            for p_ in c.params:
+                ov = st.old.env.get(p_)
+                o = st.old.heap.get(ov.ref) if isinstance(ov, VRef) else None
+                if isinstance(o, ObjState) and o.cls == c.monitor.get("cls"):
+                    mods.update(f"{p_}.{f}" for f in c.monitor.get("protects", []))
+        seen = set()
+        for p_ in c.params:
+            ov = st.old.env.get(p_)
+            if isinstance(ov, VRef) and p_ not in mods:
+                self._frame_ref(p_, ov.ref, st, mods, seen, where)
+
+    def _frame_ref(self, path, ref, st, mods, seen, where):
+        if ref in seen or ref not in st.heap or ref not in st.old.heap:
+            return
+        seen.add(ref)
+        old, new = st.old.heap[ref], st.heap[ref]
+        if isinstance(old, VSeq) and isinstance(new, VSeq):
+            if old is new or old.elem.kind in ("str", "list") or (old.elem.kind == "rec" and self.U.records[old.elem.name].mutable):
+                return
+            self.oblige(st, seqs.seq_eq(new, old), "frame", f"{path} is not modified ({where})", name=f"{c_qual(self)}::frame[{path}]")
+            return
+        if not (isinstance(old, ObjState) and isinstance(new, ObjState)) or old.cls != new.cls:
+            return
+        decl = self.U.records[old.cls]
+        for f, fs in decl.fields:
+            q = f"{path}.{f}"
+            if q in mods:
+                continue
+            ov, nv = old.fields[f], new.fields[f]
+            if ov is nv and not isinstance(ov, VRef):
+                continue
+            if isinstance(ov, VRef) and isinstance(nv, VRef) and ov.ref == nv.ref:
+                self._frame_ref(q, ov.ref, st, mods, seen, where)
+                continue
+            try:
+                a, b = self.deref(nv, st), self.deref(ov, st.old)
+                if isinstance(a, VSeq) and isinstance(b, VSeq):
+                    if a.elem.kind in ("str", "list"):
+                        continue
+                    goal = seqs.seq_eq(a, b)
+                else:
+                    goal = self.to_term(nv, fs, st) == self.to_term(ov, fs, st.old)
+            except Unsupported:
+                continue
+            self.oblige(st, goal, "frame", f"{q} is not modified ({where})", name=f"{c_qual(self)}::frame[{q}]")
 
     def check_raise(self, exc: Exc, st: State):
         c = self.c
@@ -188,6 +253,7 @@ class Exec(MonitorMixin, DictMixin, StmtMixin, CallMixin, BuiltinMixin, ExprMixi
             g = self.spec_bool(cond, {}, st.old.copy()) if st.old is not None else z3.BoolVal(True)
             # evaluated on the pre-state
             self.oblige(st, g, "raises", f"{exc.name} only when {cond}", name=f"{c.qual}::raises.{allowed[0]}.when")
+        self.check_frame(st, f"{allowed[0]} raised")
         env = {}
         if st.old is not None:
             for p_ in c.params:
